@@ -1,7 +1,10 @@
 #!/bin/bash
 # re-run every stored seeded change against its property's quick check; prints CAUGHT/MISSED per change
+# usage: verify_seeds.sh [shard nshards]   (e.g. two shards in parallel with VERIF_JOBS=8 each)
 cd /verif
+S=${1:-0}; N=${2:-1}; i=0
 for d in seeded/*/; do
+  i=$((i+1)); [ $((i % N)) -eq $S ] || continue
   n=$(basename $d); p=$(python3 -c "import json;print(json.load(open('$d/meta.json'))['property'])")
   out=$(./seed_eval.sh $d $p 2>&1)
   if echo "$out" | grep -q "VIOLATION property=$p"; then r=CAUGHT; else r=MISSED; fi
